@@ -82,6 +82,11 @@ class LoadFamily:
             rt['chaos']['pause_us'] = rng.choice([30, 100, 300])
         if churn:
             rt['chaos']['pause_us'] = rng.choice([300, 600, 1200])
+            if rng.random() < 0.6:
+                # only the launch window (row written, process not in the cache yet) is held open, for milliseconds
+                rt['chaos'].update(pause_us=rng.choice([3000, 6000, 10000]), pause_only='cache.push_proc')
+        elif storm and rng.random() < 0.3:
+            rt['chaos'].update(pause_us=rng.choice([1000, 3000]), pause_only='cache.push_proc')
         L = {'id': '', 'family': 'load', 'sched': f'N{N}-cap{cap}-w{workers}-{mode}', 'seed': rng.randrange(1 << 30), 'runtime': rt, 'engine': {'store': 'mem', 'keep_processes': True, 'cache_cap': cap},
              'models': [json.dumps(m) for m in models], 'responder': {'mode': mode, 'order': 'seeded', 'rules': rules, 'max_rounds': 100000}, 'ops': ops, 'watchdog_ms': 90000}
         solos = []
